@@ -6,6 +6,7 @@ verus! {
 //!include prelude/std_gaps.rs
 //!include prelude/keymap.rs
 //!include prelude/app.rs
+pub mod graph { pub use super::graph_err::GraphError; }
 
 pub mod core { pub(crate) use super::Config; pub(crate) use super::Target; }
 pub mod tracking {
